@@ -11,6 +11,8 @@ from vlib import w as W
 from vlib.core import Ob
 
 PROPERTY_ID = "C18"
+ENGINE = 'E1 CrossHair 0.0.110 (z3) + E2 psx for the DP engine dispatch'
+TECHNIQUE = 'CrossHair symbolic execution of the real gap-merging helpers of pairwise_to_multiple on two symbolic pairwise alignments (positions symbolic, gap lengths shard keys), columns compared with the reference-anchored reading; DP engine choice by proxy execution with symbolic sizes and limit, routing condition decided by z3 (QF_NRA)'
 CLAIM = (
     "for every pair of valid pairwise alignments to one reference within the bounds, the merged multiple alignment has equal-length rows, keeps every sequence's length, "
     "and aligns to every reference residue exactly the residue (or gap) that the pairwise alignment aligned to it; residues inserted relative to the reference stay between the same reference residues."
